@@ -44,7 +44,9 @@ func runC16(c *Ctx) {
 	peek := c.fn("queue-ends", "lists.(*Queue).Peek")
 	qlen := c.fn("len", "lists.(*Queue).Len")
 
-	isListAddr := func(t *Term) bool { return t != nil && t.Op == "faddr" && sameField(t.Obj, listField) && isParam(t.Args[0], 0) }
+	isListAddr := func(t *Term) bool {
+		return t != nil && t.Op == "faddr" && sameField(t.Obj, listField) && isParam(t.Args[0], 0)
+	}
 	isZeroRet := func(t *Term) bool {
 		return t != nil && (t.Op == "zero" || (t.Op == "call" && t.Sym == "typ.Zero") || (t.Op == "const" && (t.Sym == "0" || t.Sym == "nil" || t.Sym == `""` || t.Sym == "false")))
 	}
